@@ -1171,6 +1171,11 @@ def rolling_window(
     window_region = [
         dimension + (-1) ** (i % 2) * size / 2 for i, dimension in enumerate(region)
     ]
+    # Round-off errors can make the boundaries cross when the window is as
+    # large as the region in one of the dimensions
+    for i in (0, 2):
+        if window_region[i] > window_region[i + 1]:
+            window_region[i] = window_region[i + 1] = (region[i] + region[i + 1]) / 2
     _check_rolling_window_overlap(window_region, size, shape, spacing)
     centers = grid_coordinates(
         window_region, spacing=spacing, shape=shape, adjust=adjust
